@@ -200,7 +200,7 @@ PROPS["C10"] = {
     "rule": ("rapid draws three epoch specs; per case ~140 configurations are derived deterministically (6 roles x {B, A'} singles, 20 cross-role swaps, 60 pairs, all-A'); non-trivial = case in which at least one configuration must be rejected; distinct by case hash; class_counts reports configurations-tried and foreign-car-cid-fetches"),
     "assumptions": ["identity oracle derived from the property statement (kind, epoch, root)"],
     "units": [
-        {"name": "identity", "pkg": ".", "run": "TestVfC10", "checks": T(16, 480), "shards": T(8, 16), "timeout": T(900, 3000), "transforms": GSFA_FASTPOLL, "env": ROOT_ENV},
+        {"name": "identity", "pkg": ".", "run": "TestVfC10", "checks": T(16, 480), "shards": T(8, 16), "timeout": T(900, 3000), "shrinktime": "10s", "transforms": GSFA_FASTPOLL, "env": ROOT_ENV},
     ],
 }
 
